@@ -2,7 +2,10 @@
    Statements only; proofs are in Proofs/Junit.v. The model (Model/Junit.v) consumes the emitted
    event stream: RunStats::on_test_finished / on_setup_script_finished, ExecutionStatuses::describe,
    MetadataJunit::write_event, the final summary line. *)
-From NextestModel Require Import Base.Str Model.Junit Proofs.Junit.
+From Coq Require Import ZArith.
+From NextestModel Require Model.Result Model.Unit.
+From NextestModel Require Import Model.Dispatcher.
+From NextestModel Require Import Base.Str Model.Junit Proofs.Junit Proofs.JunitLink.
 Open Scope N_scope.
 
 (* passed + failed + exec_failed + timed_out = finished; flaky, leaky, slow are sub-counts; the
@@ -133,51 +136,201 @@ Theorem C17_report_exists :
 Proof. exact wf_report_exists. Qed.
 Print Assumptions C17_report_exists.
 
-(* the three consumers agree: given that every snapshot carried by an event is the running fold
-   (attached), the statistics carried by RunFinished -- from which the summary line and the exit
-   status are computed -- equal the statistics recomputed from the stream, and the JUnit report
-   built from the same stream has the matching counts *)
+(* the three consumers agree, from the event stream alone. [tally_stats n evs] is the record of
+   plain counts over the stream: how many tests finished, how many of them with a final (last)
+   attempt that passed / failed / could not start / timed out / leaked / was slow / needed a
+   retry, how many scripts finished with which result, how many tests were skipped (Proofs/Junit.v;
+   no fold, no testcase). Then, for ANY stream on which the aggregator does not panic (every
+   well-formed one: C17_report_exists) and any number n of selected tests:
+   - the RunStats record the dispatcher folds event by event is that record of tallies, all 17
+     counters; the summary line ([summary_counts]) and the exit status ([exit_code] of
+     [summarize_final]) are functions of it;
+   - the tests / failures / errors attributes of the JUnit report are tallies of the same stream
+     (failures vs errors: by the first attempt of an ultimately failed test);
+   - tests = finished tests + finished scripts; failures + errors = failed_count + failed setup
+     scripts, the two numbers that decide the exit status;
+   - exit status 0 iff the report has no failure or error element and every selected test
+     finished and at least one did. *)
 Theorem C17_consumers_agree :
-  forall n (l : list sevent) final rep,
-    attached (initial_stats n) (l ++ [(JOther, Some final)]) = true ->
-    junit_report (map fst l) = Some rep ->
-    let evs := map fst l in
-    final = run_stats n evs
-    /\ summary_counts final = summary_counts (run_stats n evs)
-    /\ len (test_cases rep) = finished_count final
-    /\ count_if is_nonsuccess (test_cases rep) = failed_count final
-    /\ count_if is_flaky_case (test_cases rep) = flaky final
-    /\ len (script_cases rep) = ss_finished_count final
-    /\ count_if is_nonsuccess (script_cases rep) = failed_script_count final
-    /\ (has_failures final = false <-> count_if is_nonsuccess (all_cases rep) = 0)
-    /\ part_inv final.
+  forall n evs rep,
+    junit_report evs = Some rep ->
+    let s := run_stats n evs in
+    s = tally_stats n evs
+    /\ report_counts rep = (count_if ev_case evs,
+                            (count_if (ev_kind KFailure) evs, count_if (ev_kind KError) evs))
+    /\ fst (report_counts rep) = finished_count s + ss_finished_count s
+    /\ fst (snd (report_counts rep)) + snd (snd (report_counts rep))
+       = failed_count s + failed_script_count s
+    /\ (exit_code (summarize_final s) = 0 <->
+        fst (snd (report_counts rep)) + snd (snd (report_counts rep)) = 0
+        /\ n <= count_if (test_where (on_res r_any)) evs
+        /\ count_if (test_where (on_res r_any)) evs <> 0).
 Proof. exact consumers_agree. Qed.
 Print Assumptions C17_consumers_agree.
 
-(* well-formedness of the XML text: quick-junit's XmlString filter versus the XML 1.0 Char
-   production. The full statement is refuted (finding F13); outside the two BMP non-characters
-   every kept scalar value is a legal XML character *)
-Theorem C17_xml_chars_refuted :
-  exists c, is_scalar c = true /\ xmlstring_keeps c = true /\ xml_char c = false.
-Proof. exact xmlstring_not_wellformed_witness. Qed.
-Print Assumptions C17_xml_chars_refuted.
+(* the summary line: every number it shows is a tally of the per-test final results of the stream,
+   and each optional token is shown exactly when its tally is positive (the "/I" part: when not
+   every selected test finished) *)
+Theorem C17_summary_tokens :
+  forall n evs tag v,
+    let T p := count_if (test_where p) evs in
+    In (tag, v) (summary_counts (run_stats n evs)) <->
+    (tag = 0 /\ v = T (on_res r_any))
+    \/ (tag = 1 /\ v = n /\ T (on_res r_any) <> n)
+    \/ (tag = 2 /\ v = T (on_res jis_success))
+    \/ (tag = 3 /\ v = T (fun a => jis_success (ja_res a) && ja_slow a) /\ 0 < v)
+    \/ (tag = 4 /\ v = count_if (fun e => test_where (on_res jis_success) e && retried e) evs /\ 0 < v)
+    \/ (tag = 5 /\ v = T (on_res r_leak) /\ 0 < v)
+    \/ (tag = 6 /\ v = T (on_res r_fail) /\ 0 < v)
+    \/ (tag = 7 /\ v = T (on_res r_exec) /\ 0 < v)
+    \/ (tag = 8 /\ v = T (on_res r_timeout) /\ 0 < v)
+    \/ (tag = 9 /\ v = count_if is_skipped_event evs).
+Proof. exact summary_tokens_are_tallies. Qed.
+Print Assumptions C17_summary_tokens.
 
-Theorem C17_xml_chars_outside_known :
+(* the statistics are tallies for every stream, report or not *)
+Theorem C17_stats_are_tallies :
+  forall n evs, run_stats n evs = tally_stats n evs.
+Proof. exact run_stats_is_tally. Qed.
+Print Assumptions C17_stats_are_tallies.
+
+(* the snapshots carried by the events (TestStarted / TestFinished current_stats, RunFinished
+   run_stats): under the decidable predicate [attached] -- checked on every real tap, and proved
+   of the dispatcher model for all its histories below -- EVERY snapshot is the tally of the stream
+   up to and including the event that carries it *)
+Theorem C17_snapshots_are_tallies :
+  forall n l,
+    attached (initial_stats n) l = true ->
+    forall pre e snap post, l = pre ++ (e, Some snap) :: post ->
+      snap = tally_stats n (map fst pre ++ [e]).
+Proof. exact snapshots_are_tallies. Qed.
+Print Assumptions C17_snapshots_are_tallies.
+
+(* ---- the link to Model/Result.v, the model C01's theorems are about *)
+
+(* for ALL statistics: the verdict (FinalRunStats) and the exit status Model/Junit.v computes are
+   those Model/Result.v computes (conversion [to_stats] / [of_stats] / [of_final]: field by field) *)
+Theorem C17_stats_are_C01_stats :
+  forall s : stats,
+    summarize_final s = of_final (Result.summarize_final (to_stats s))
+    /\ Z.of_N (exit_code (summarize_final s))
+       = Result.exit_code (Result.summarize_final (to_stats s)) None
+    /\ failed_count s = Result.failed_count (to_stats s)
+    /\ failed_script_count s = Result.failed_setup_script_count (to_stats s).
+Proof. exact stats_are_result_stats. Qed.
+Print Assumptions C17_stats_are_C01_stats.
+
+(* ... and the update functions are the same functions: RunStats::on_test_finished,
+   on_setup_script_finished, the skipped bump, the initial value; the conversion is a bijection *)
+Theorem C17_update_functions_are_C01s :
+  (forall n, of_stats (Result.stats0 n) = initial_stats n)
+  /\ (forall s st, of_stats (Result.on_test_finished s st)
+                   = on_test_finished (of_stats s) (fst (of_statuses st)) (snd (of_statuses st)))
+  /\ (forall s r, of_stats (Result.on_script_finished s r)
+                  = on_script_finished (of_stats s) (of_result r))
+  /\ (forall s, of_stats (Result.bump Result.FSkipped s) = stats_add (of_stats s) skipped_delta)
+  /\ (forall s, to_stats (of_stats s) = s) /\ (forall s, of_stats (to_stats s) = s).
+Proof. exact update_functions_agree. Qed.
+Print Assumptions C17_update_functions_are_C01s.
+
+(* the stream emitted by the dispatcher model of C01/C02/C10 (Model/Dispatcher.v), for EVERY
+   history that does not panic, seen through any naming of tests / scripts and any store flags:
+   every event carries the running fold of the stream ([attached]), RunFinished included, and
+   the dispatcher's final RunStats are the statistics folded over the stream *)
+Theorem C17_dispatcher_stream_attached :
+  forall tname tflags sname sflags n mf dbg h d,
+    final_state (Live (init n mf dbg)) h = Live d ->
+    attached (initial_stats n) (emitted tname tflags sname sflags n mf dbg h (d_stats d)) = true
+    /\ of_stats (d_stats d)
+       = run_stats n (map fst (tr_stream tname tflags sname sflags (out (Live (init n mf dbg)) h))).
+Proof. exact dispatcher_stream_attached. Qed.
+Print Assumptions C17_dispatcher_stream_attached.
+
+(* "the statistics that determine the exit status" are one object: the exit status of C01
+   ([Unit.run_exit], computed from the dispatcher's RunStats) is the exit status computed from
+   the statistics folded over the emitted stream, which are the tallies of the final results *)
+Theorem C17_exit_status_is_C01s :
+  forall tname tflags sname sflags c mf dbg h code,
+    Unit.run_exit c mf dbg h None = Some code ->
+    let n := N.of_nat (length (Unit.c_sel c)) in
+    exists d,
+      final_state (Live (init n mf dbg)) h = Live d
+      /\ let evs := map fst (tr_stream tname tflags sname sflags (out (Live (init n mf dbg)) h)) in
+         of_stats (d_stats d) = run_stats n evs
+         /\ run_stats n evs = tally_stats n evs
+         /\ code = Z.of_N (exit_code (summarize_final (run_stats n evs)))
+         /\ attached (initial_stats n)
+                     (emitted tname tflags sname sflags n mf dbg h (d_stats d)) = true.
+Proof. exact exit_status_is_result_exit. Qed.
+Print Assumptions C17_exit_status_is_C01s.
+
+(* well-formedness of the XML text. Every stored string goes through xml_safe (junit.rs, the
+   repair of finding F13): quick-junit's XmlString::new (strip_ansi_escapes::strip_str -- the vte
+   state machine, modelled byte for byte --, then the C0 filter), then removal of U+FFFE/U+FFFF
+   and XmlString::new again. For EVERY Rust string (any length; escape sequences complete or not,
+   controls, non-characters, U+FFFD from invalid UTF-8) every character of the stored text is an
+   XML 1.0 Char:  #x9 | #xA | #xD | [#x20-#xD7FF] | [#xE000-#xFFFD] | [#x10000-#x10FFFF] *)
+Theorem C17_stored_text_xml_chars :
+  forall s : str, forallb is_scalar s = true -> forallb xml_char (stored_text s) = true.
+Proof. exact stored_text_xml_chars. Qed.
+Print Assumptions C17_stored_text_xml_chars.
+
+(* the stored text consists of characters of the captured string (and possibly U+FFFD, which the
+   escape stripper writes for a character cut in two by the byte 0x9C ending a DCS string), each
+   of which the per-character filter keeps; and it never contains U+FFFE / U+FFFF, whatever
+   (scalar or not) the input is made of *)
+Theorem C17_stored_text_only_deletes :
+  forall s x, In x (stored_text s) -> (x = 65533 \/ In x s) /\ nextest_keeps x = true.
+Proof. exact stored_text_out. Qed.
+Print Assumptions C17_stored_text_only_deletes.
+
+Theorem C17_stored_text_no_nonchar :
+  forall s, existsb known_nonchar (stored_text s) = false.
+Proof. exact stored_text_no_nonchar. Qed.
+Print Assumptions C17_stored_text_no_nonchar.
+
+(* the order of the stages is harmless: no ESC survives the first XmlString::new, so removing
+   the two non-characters cannot assemble a new escape sequence, and the second XmlString::new
+   changes nothing *)
+Theorem C17_stored_text_is_filter :
+  forall s, stored_text s = filter (fun c => negb (known_nonchar c)) (xmlstring_new s).
+Proof. exact stored_text_is_filter. Qed.
+Print Assumptions C17_stored_text_is_filter.
+
+(* on text without ESC the whole pipeline is the per-character filter nextest_keeps *)
+Theorem C17_stored_text_esc_free :
+  forall s, forallb (fun c => negb (c =? 27)) s = true -> stored_text s = filter nextest_keeps s.
+Proof. exact stored_text_esc_free. Qed.
+Print Assumptions C17_stored_text_esc_free.
+
+(* regression witnesses, about quick-junit's XmlString::new ALONE (what nextest relied on before
+   a19c0df; formerly finding F13): it keeps U+FFFF, which is not an XML 1.0 Char; outside the two
+   BMP non-characters every scalar it keeps is legal *)
+Theorem C17_xmlstring_alone_refuted :
+  (exists c, is_scalar c = true /\ xmlstring_keeps c = true /\ xml_char c = false)
+  /\ (exists s, forallb is_scalar s = true /\ forallb xml_char (xmlstring_new s) = false
+                /\ forallb xml_char (stored_text s) = true).
+Proof. exact (conj xmlstring_alone_not_wellformed_witness xmlstring_alone_not_wellformed_text). Qed.
+Print Assumptions C17_xmlstring_alone_refuted.
+
+Theorem C17_xmlstring_alone_outside_nonchars :
   forall c, is_scalar c = true -> known_nonchar c = false ->
             xmlstring_keeps c = true -> xml_char c = true.
 Proof. exact xmlstring_outside_known. Qed.
-Print Assumptions C17_xml_chars_outside_known.
+Print Assumptions C17_xmlstring_alone_outside_nonchars.
 
-(* exactly what the filter keeps, and the legal characters it loses (TAB and CR: removed by the
-   escape stripper before the replace() filter that would have kept them sees them) *)
+(* exactly what the repaired pipeline keeps outside escape sequences, and the legal characters it
+   loses (TAB, CR, C1 controls: removed by the escape stripper before the replace() filter that
+   would have kept them sees them) *)
 Theorem C17_xml_chars_kept :
-  forall c, xmlstring_keeps c = true <-> (32 <= c \/ c = 10).
-Proof. exact xmlstring_keeps_spec. Qed.
+  forall c, nextest_keeps c = true <->
+            (c = 10 \/ (32 <= c /\ ~ (128 <= c <= 159) /\ c <> 65534 /\ c <> 65535)).
+Proof. exact nextest_keeps_spec. Qed.
 Print Assumptions C17_xml_chars_kept.
 
 Theorem C17_xml_chars_lost :
-  forall c, (xml_char c = true /\ xmlstring_keeps c = false) <-> (c = 9 \/ c = 13).
-Proof. exact xmlstring_lost_chars. Qed.
+  forall c, (xml_char c = true /\ nextest_keeps c = false) <-> (c = 9 \/ c = 13 \/ 128 <= c <= 159).
+Proof. exact nextest_lost_chars. Qed.
 Print Assumptions C17_xml_chars_lost.
 
 (* ------------------------------------------------------------------ non-vacuity (closed) *)
@@ -191,12 +344,12 @@ Definition a_exec := mk_att JExecFail false.
 Definition a_timeout := mk_att JTimeout true.
 Definition bA : str := [97]. Definition bB : str := [98].
 Definition t1 : str := [49]. Definition t2 : str := [50]. Definition t3 : str := [51].
-Definition sid : str := [115].
+Definition sid1 : str := [115].
 
 (* a run: script passes; b::1 passes; a::1 flaky after two failures; a::2 fails three times
    (exec-fail first); b::2 leaks; one test skipped; b::3 times out *)
 Definition ex_stream : list jevent :=
-  [ JScriptFinished sid JPass true true;
+  [ JScriptFinished sid1 JPass true true;
     JTestFinished bB t1 a_pass_slow [] false true;
     JOther;
     JTestFinished bA t1 a_fail [a_segv; a_pass] true false;
@@ -217,7 +370,7 @@ Proof. vm_compute. auto. Qed.
 
 Example C17_example_report :
   junit_report ex_stream = Some
-    [ (KScript sid, [mk_tc sid (setup_script_prefix ++ sid) (TSuccess []) 1 true]);
+    [ (KScript sid1, [mk_tc sid1 (setup_script_prefix ++ sid1) (TSuccess []) 1 true]);
       (KBinary bB, [mk_tc t1 bB (TSuccess []) 1 false;
                     mk_tc t2 bB (TSuccess []) 1 true;
                     mk_tc t3 bB (TNonSuccess KFailure []) 1 false]);
@@ -226,7 +379,7 @@ Example C17_example_report :
                           1 true]) ].
 Proof. vm_compute. reflexivity. Qed.
 
-(* the hypothesis of C17_consumers_agree is satisfiable by a non-trivial stream *)
+(* the hypothesis of C17_snapshots_are_tallies is satisfiable by a non-trivial stream *)
 Example C17_example_attached :
   let l := map (fun e => (e, @None stats)) ex_stream in
   attached (initial_stats 6) (l ++ [(JOther, Some (run_stats 6 ex_stream))]) = true.
@@ -261,3 +414,53 @@ Example C17_example_kind_vs_stats :
   /\ exec_failed (run_stats 1 [JTestFinished bA t2 a_exec [a_fail] false true]) = 0
   /\ failed (run_stats 1 [JTestFinished bA t2 a_exec [a_fail] false true]) = 1.
 Proof. vm_compute. auto. Qed.
+
+(* the escape stripper on strings: a colour sequence, an OSC title, an unterminated CSI that
+   swallows the rest, LF executed inside a sequence, and the byte 0x9C of U+1720 (E1 9C A0) ending
+   a DCS passthrough in the middle of the character: the orphaned A0 is written as U+FFFD *)
+Example C17_example_ansi_strip :
+  ansi_strip [27; 91; 51; 49; 109; 114; 101; 100; 27; 91; 48; 109; 33] = [114; 101; 100; 33]
+  /\ ansi_strip [97; 27; 93; 48; 59; 116; 7; 98] = [97; 98]
+  /\ ansi_strip [97; 27; 91; 98; 99] = [97; 99]
+  /\ ansi_strip [97; 27; 91; 51; 10; 49] = [97; 10]
+  /\ ansi_strip [27; 80; 113; 5920; 65] = [65533; 65]
+  /\ ansi_strip [9; 65; 13; 155; 66; 10] = [65; 66; 10].
+Proof. vm_compute. repeat split. Qed.
+
+(* the repaired pipeline on a string with both non-characters, one of them inside an escape sequence *)
+Example C17_example_stored_text :
+  xmlstring_new [65; 65535; 27; 65534; 91; 51; 49; 109; 66] = [65; 65535; 66]
+  /\ stored_text [65; 65535; 27; 65534; 91; 51; 49; 109; 66] = [65; 66]
+  /\ forallb xml_char (stored_text [65; 65535; 27; 65534; 91; 51; 49; 109; 66]) = true.
+Proof. vm_compute. repeat split. Qed.
+
+(* the example run through C17_consumers_agree: the tallies and the report attributes (6
+   testcases; 1 failure element: b::3 timed out; 1 error element: a::2 failed, exec-fail first) *)
+Example C17_example_tallies :
+  tally_stats 6 ex_stream = mk_stats 6 5 0 1 1 0 0 0 3 1 1 1 0 1 1 0 1
+  /\ option_map report_counts (junit_report ex_stream) = Some (6, (1, 1))
+  /\ count_if ev_case ex_stream = 6
+  /\ count_if (ev_kind KFailure) ex_stream = 1 /\ count_if (ev_kind KError) ex_stream = 1.
+Proof. vm_compute. repeat split. Qed.
+
+(* a dispatcher history (script 0 passes, test 7 starts, fails, is retried and passes; test 8 is
+   skipped): the emitted stream carries the running fold, and C01's exit status is C17's *)
+Definition ex_hist : list devent :=
+  [ ScriptStarted 0; ScriptFinished 0 Result.Pass; Started 7;
+    AttemptFailedWillRetry 7 (Result.mk_attempt (Result.Fail None false) false 1 2);
+    RetryStarted 7 2 2; Finished 7 (Result.mk_attempt Result.Pass true 2 2); Skipped 8 ].
+Definition ex_names (t : tid) : str * str := (bA, [t]).
+Definition ex_flags (_ : N) : bool * bool := (true, false).
+Definition ex_sname (s : N) : str := [s].
+
+Example C17_example_dispatcher_stream :
+  Unit.run_exit (Unit.mk_cfg [7] [8] (fun _ => 2) 1) None true ex_hist None = Some 0%Z
+  /\ (let d := final_state (Live (init 1 None true)) ex_hist in
+      match d with
+      | Live d =>
+          attached (initial_stats 1)
+                   (emitted ex_names ex_flags ex_sname ex_flags 1 None true ex_hist (d_stats d)) = true
+          /\ of_stats (d_stats d) = mk_stats 1 1 0 1 1 0 0 0 1 1 1 0 0 0 0 0 1
+      | Panicked => False
+      end).
+Proof. vm_compute. repeat split. Qed.
